@@ -719,6 +719,59 @@ Example C03_sort_tuple_example :
   sort2_members t (KAttr 0) (KAttr 1) true [1; 5] = None.
 Proof. vm_compute. repeat split. Qed.
 
+(* ---- string sort keys.  Strings are lists of character codes, Python compares them lexicographically
+   (lex_leb).  The model's key for the string NAMES[v mod 10] is its base-128 code enc_str; the code orders
+   exactly like the string and is injective, for ALL strings of at most L characters with codes 1..127 - so every
+   sort / groupby theorem above, read with a KName key, is a theorem about lexicographic string order. *)
+Theorem C03_string_code_is_lexicographic : forall L a b,
+  str_ok L a -> str_ok L b -> (lex_leb a b = true <-> enc_str L a <= enc_str L b).
+Proof. exact enc_str_lex. Qed.
+Print Assumptions C03_string_code_is_lexicographic.
+
+Theorem C03_string_code_injective : forall L a b,
+  str_ok L a -> str_ok L b -> enc_str L a = enc_str L b -> a = b.
+Proof. exact enc_str_inj. Qed.
+Print Assumptions C03_string_code_injective.
+
+Theorem C03_string_keys_order : forall v w,
+  let sv := nth (Z.to_nat (v mod 10)) names [] in let sw := nth (Z.to_nat (w mod 10)) names [] in
+  (name_key v <= name_key w <-> lex_leb sv sw = true) /\ (name_key v = name_key w <-> sv = sw).
+Proof. exact name_key_order. Qed.
+Print Assumptions C03_string_keys_order.
+
+Example C03_string_keys_example :
+  let t := [(1, {| a_cls := 0; a_attrs := [(0, 4)] |}); (2, {| a_cls := 0; a_attrs := [(0, 2)] |});
+            (3, {| a_cls := 0; a_attrs := [(0, 6)] |}); (4, {| a_cls := 0; a_attrs := [(0, 12)] |});
+            (5, {| a_cls := 0; a_attrs := [(0, 0)] |}); (6, {| a_cls := 0; a_attrs := [(0, 7)] |})] in
+  (* names: 1:"b" 2:"ab" 3:"B" 4:"ab" 5:"" 6:"aa"   ascending: "" < "B" < "aa" < "ab" = "ab" < "b" *)
+  sort_members t (KName 0) true [1; 2; 3; 4; 5; 6] = Some [5; 3; 6; 2; 4; 1] /\
+  sort_members t (KName 0) false [1; 2; 3; 4; 5; 6] = Some [1; 2; 4; 6; 3; 5] /\
+  lex_leb [66] [97; 97] = true /\ lex_leb [97; 98] [97; 97] = false /\ str_ok 3 [97; 98; 99].
+Proof.
+  split; [vm_compute; reflexivity|]. split; [vm_compute; reflexivity|].
+  split; [reflexivity|]. split; [reflexivity|]. split; [simpl; lia|repeat constructor; lia].
+Qed.
+
+(* ---- gb.groups[kv]: the group on both result types when a member has the key; when NO member has it, a
+   KeyError on "agentset" - but on "list" the GroupBy still holds the defaultdict(list), so the lookup silently
+   creates and returns an empty group (documented boundary, outside the statement) *)
+Theorem C03_boundary_groups_lookup : forall st s k kv rt m ks,
+  members st s = Some m -> all_some (eval_key (st_tbl st) k) m = Some ks ->
+  let kf := key_or0 (st_tbl st) k in
+  (In kv (map kf m) ->
+     step st (GroupLookup s k kv rt) =
+     (st, ROk (zlen (filter (fun a => kf a =? kv) m) :: filter (fun a => kf a =? kv) m))) /\
+  (~ In kv (map kf m) ->
+     step st (GroupLookup s k kv rt) = if rt then (st, RErr E_KEY) else (st, ROk [0])).
+Proof. exact step_group_lookup. Qed.
+Print Assumptions C03_boundary_groups_lookup.
+
+Example C03_boundary_groups_lookup_example :
+  snd (step ex_state (GroupLookup 0 (KAttr 0) 4 false)) = ROk [2; 3; 1] /\
+  snd (step ex_state (GroupLookup 0 (KAttr 0) 9 true)) = RErr E_KEY /\
+  snd (step ex_state (GroupLookup 0 (KAttr 0) 9 false)) = ROk [0].
+Proof. vm_compute. repeat split. Qed.
+
 (* ---- the boundary of the quantifier: what select does with at_most values the statement excludes *)
 (* a float above 1.0 is not converted but used as a count: the first ceil(f) matches *)
 Theorem C03_boundary_float_above_one : forall len k j,
@@ -824,6 +877,27 @@ Theorem C03_source_get_branches : forall st s (names : list Z) (single : bool) m
   end.
 Proof. exact get_of_source. Qed.
 Print Assumptions C03_source_get_branches.
+
+(* GroupBy.count and GroupBy.agg are the dict comprehensions of the source, translated (gen_group_count, gen_group_agg) *)
+Theorem C03_source_groupby_count : forall st s k m ks,
+  members st s = Some m -> all_some (eval_key (st_tbl st) k) m = Some ks ->
+  let g := groupby_members (key_or0 (st_tbl st) k) m in
+  step st (GroupCount s k) = (st, ROk (zlen g :: pairs_flat (gen_group_count g))).
+Proof. exact step_group_count_of_source. Qed.
+Print Assumptions C03_source_groupby_count.
+
+Theorem C03_source_groupby_agg : forall st s k n f m ks,
+  members st s = Some m -> all_some (eval_key (st_tbl st) k) m = Some ks ->
+  (forall a, In a m -> attr_of (st_tbl st) a n <> None) ->
+  let g := groupby_members (key_or0 (st_tbl st) k) m in
+  step st (GroupAgg s k n f) = (st, ROk (pairs_flat (gen_group_agg (agg_or0 f) (attr_or0 (st_tbl st) n) g))).
+Proof. exact step_group_agg_of_source. Qed.
+Print Assumptions C03_source_groupby_agg.
+
+Example C03_source_groupby_example :
+  gen_group_count [(4, [3; 1]); (-2, [2])] = [(4, 2); (-2, 1)] /\
+  gen_group_agg (agg_or0 FMax) (attr_or0 (st_tbl ex_state) 0) [(1, [3; 2]); (0, [1])] = [(1, 4); (0, 4)].
+Proof. vm_compute. repeat split. Qed.
 
 (* the signature defaults the driver relies on when it omits an argument, and the verbatim glue *)
 Theorem C03_source_defaults : gen_agentset_defaults = (false, [false; false; false], 0, true, true, true).
